@@ -27,7 +27,10 @@ RULE = ("a case places secret fields (aes / xor / best) at the root, in sub-sche
         "non-empty secrets at >= 2 depths; distinct = distinct case content")
 REQUIRED = ("layout:item-used-on-its-own-before-joining-the-list", "key_file_names_reported_by_the_configurations_checked", "layout:section-used-on-its-own-before-joining-the-tree", "key_file_names_a_shell_would_expand", "failed_loads_before_key_rotation", "saves_after_key_files_were_replaced", "items_handed_over_to_a_second_configuration", "sections_saved_without_a_reference_to_the_root", "saves_failed_for_missing_key_directory", "layout:two-types-one-schema-different-keyfiles", "layout:only-keyed-subtrees", "layout:transplanted-subconfig", "layout:names-inherited-file", "documents_scanned_for_tokens", "ciphertexts_decrypted_by_oracle", "keyfile_open_sets_checked",
             "reloads_compared", "layout:root-ctor", "layout:root-attr", "layout:sub", "layout:ctype", "layout:default",
-            "secrets_in_list_items", "rekey_after_first_use", "new_process_reloads")
+            "secrets_in_list_items", "rekey_after_first_use", "new_process_reloads",
+            "configurations_constructed_from_stored_sections", "constructed_from_stored_sections:root",
+            "constructed_from_stored_sections:type-object", "constructed_from_stored_sections:section",
+            "constructed_from_stored_sections:list-item", "secrets_read_from_constructed_configurations")
 ASSUMPTIONS = ["only files under the sandbox root are considered; HOME is redirected so the default key file is sandboxed",
                "ciphertext equality is never compared (fresh IV)", "documents are decoded with the library's codecs (C04)",
                "a key file named on a sub-configuration *instance* is judged for saving only: loading a document rebuilds "
@@ -514,6 +517,9 @@ def _save_and_check(cc, ctx, res, case, cfg, schema, fmt, positions, exp, log, a
         res.viol("M-files", "unexpected-keyfile-on-save:" + rname, "dumps(%s) opened %s; expected only %s" % (
             fmt, sorted(os.path.basename(p) for p in extra), sorted(os.path.basename(p) for p in allowed)))
         return False
+    # (3b) new configuration objects built in one go from stored sections: Config(schema, key_filename=K, section=<stored>)
+    if not _construct_from_stored(cc, ctx, res, case, cfg, schema, fmt, tree, exp, log, allkeys, rname):
+        return False
     # (4) reload into a fresh configuration (sub-configuration level keys are judged for saving only)
     if lay["a"] or lay["ab"]:
         res.count("reload_not_judged_sub_instance_key")
@@ -557,6 +563,85 @@ def _save_and_check(cc, ctx, res, case, cfg, schema, fmt, positions, exp, log, a
             res.viol("M-reload", "plaintext-differs:%s" % rname, "%s: secret %s reloads as %r, not %r" % (
                 fmt, ".".join(map(str, path)), _short(val), _short(plain)))
             return False
+    return True
+
+
+def _construct_from_stored(cc, ctx, res, case, cfg, schema, fmt, tree, exp, log, allkeys, rname):
+    """New configuration objects are built in ONE constructor call from sections of the stored document (keyword data in the
+    on-disk form) together with the key file the stored secrets belong to: a new root, a configuration-type object on its own
+    (the type names the key file), a section / a list item on its own. Each names (or inherits, or defaults to) exactly the key
+    file `exp` gives for the secrets handed in, so these must come back as their plaintexts and no other key file is touched."""
+    import copy
+
+    lay, values = case["layout"], case["values"]
+    default = ctx.sb.default_keyfile
+    positions = secret_positions(values)
+    r = (case["r"] >> 3) + len(fmt) + len(rname)
+    rk = exp["s"]
+    jobs = []  # (what, factory, keyword data, sections handed in, name of the key file or None)
+    # -- a new root -----------------------------------------------------------------------------------------------------------
+    pool = ["t", "t2", "items", "titems"] + ([] if (lay["a"] or lay["ab"]) else ["a"])
+    picked = [sec for i, sec in enumerate(pool) if (r >> i) & 1] or [pool[r % len(pool)]]
+    named = None if rk == default else rk
+    if r % 5 < 2:
+        jobs.append(("root:Config", lambda **kw: cc.Config(schema, **kw), {sec: tree[sec] for sec in picked}, picked, named))
+    else:
+        jobs.append(("root:schema-call", schema, {sec: tree[sec] for sec in picked}, picked, named))
+    # -- a configuration-type object on its own: the type names the key file (or nobody does and the default one served) ----------
+    if lay["T"] or exp["t.inner.s"] == default:
+        jobs.append(("type-object", type(cfg.t), {"inner": tree["t"]["inner"]}, ["t.inner"], None))
+    # -- a section on its own, naming the key file its secrets were stored under ------------------------------------------------------
+    abk = exp["a.b.s"]
+    jobs.append(("section", schema._fields["a"], {"b": tree["a"]["b"]}, ["a.b"], None if abk == default else abk))
+    if values["items"]:
+        idx = r % len(values["items"])
+        jobs.append(("list-item", schema._fields["items"].field, {"n": tree["items"][idx]["n"], "sub": tree["items"][idx]["sub"]},
+                     ["items.%d.sub" % idx], named))
+    for what, factory, data, sections, keyname in jobs:
+        inside = [(pos, path, plain) for pos, path, plain in positions
+                  if any((".".join(map(str, path)) + ".").startswith(sec + ".") for sec in sections)]
+        allowed = {exp[pos] for pos, _p, plain in inside if plain}
+        kwargs = copy.deepcopy(data)
+        if keyname:
+            kwargs["key_filename"] = keyname
+        log.clear()
+        with log:
+            try:
+                new = factory(**kwargs)
+                err = None
+            except Exception as exc:
+                err = exc
+        touched = {e[1] for e in log.events if e[1] in allkeys}
+        feat = "%s:%s" % (what, rname)
+        if err is not None:
+            res.viol("M-reload", "constructor-with-stored-sections-raises:" + feat, "%s: building a new %s from the stored section(s) %s%s raised "
+                     "%s: %s (key files opened: %s)" % (fmt, what, sections, " with key_filename=%s" % os.path.basename(keyname) if keyname else "",
+                                                        type(err).__name__, str(err)[:200], sorted(os.path.basename(p) for p in touched)))
+            return False
+        res.count("configurations_constructed_from_stored_sections")
+        res.count("constructed_from_stored_sections:" + what.split(":")[0])
+        extra = touched - allowed
+        if extra:
+            res.viol("M-files", "unexpected-keyfile-on-construction:" + feat, "%s: building a new %s from the stored section(s) %s opened %s; "
+                     "expected only %s" % (fmt, what, sections, sorted(os.path.basename(p) for p in extra),
+                                           sorted(os.path.basename(p) for p in allowed)))
+            return False
+        for pos, path, plain in inside:
+            # path below the object built: a root takes the whole path, the others drop the prefix that names the section's owner
+            rel = path if what.startswith("root") else path[{"type-object": 1, "section": 1, "list-item": 2}[what]:]
+            try:
+                cur = new
+                for seg in rel:
+                    cur = cur[seg]
+            except Exception as exc:
+                cur = "<unreadable: %r>" % (exc,)
+            res.count("secrets_read_from_constructed_configurations")
+            if _norm(cur) != _norm(plain):
+                res.viol("M-reload", "plaintext-differs-after-construction:" + feat, "%s: secret %s of a new %s built from the stored "
+                         "section(s) %s reads %s, not %s (key files opened: %s)" % (
+                             fmt, ".".join(map(str, path)), what, sections, _short(cur), _short(plain),
+                             sorted(os.path.basename(p) for p in touched)))
+                return False
     return True
 
 
